@@ -15,17 +15,22 @@ I64 = (-2**63, 2**63 - 1)
 # store paths; the tag after ':' is the way the value reaches the store
 PATHS = [
     "decl:lit", "decl:var", "decl:expr", "for-init:lit",
+    "decl:tern-lit", "decl:tern-else", "decl:tern-var", "decl:call", "decl:elem1", "decl:const", "decl:block",
     "assign:lit", "assign:var", "assign:expr",
-    "compound:add", "compound:sub", "compound:mul",
-    "incdec-var:pre", "incdec-var:post",
+    "assign:tern-lit", "assign:tern-else", "assign:tern-var", "assign:tern-expr", "assign:tern-call", "assign:tern-nested",
+    "assign:tern-tinyvar", "assign:tern-bool",
+    "assign:call", "assign:elem1", "assign:uninit", "assign:global", "assign:param", "assign:outer", "assign:static",
+    "compound:add", "compound:sub", "compound:mul", "compound:or", "compound:shl", "compound:div",
+    "compound:global", "compound:static",
+    "incdec-var:pre", "incdec-var:post", "incdec-var:for-update", "incdec-var:global", "incdec-var:param", "incdec-var:static",
     "incdec-elem:pre", "incdec-elem:post",
-    "arg:lit", "arg:var", "arg:default",
-    "return:var", "return:expr",
-    "elem1:lit", "elem1:var", "elem1-compound:add",
-    "elemN:lit2", "elemN:var2", "elemN:lit3",
+    "arg:lit", "arg:var", "arg:default", "arg:expr", "arg:call", "arg:tern", "arg:second",
+    "return:var", "return:expr", "return:lit", "return:tern", "return:call", "return:nested", "return:direct",
+    "elem1:lit", "elem1:var", "elem1:tern", "elem1:call", "elem1:global", "elem1-compound:add",
+    "elemN:lit2", "elemN:var2", "elemN:lit3", "elemN:tern", "elemN:call",
     "literal1:lit", "literal1:var", "literalN:lit",
-    "global:scalar", "global:array",
-    "static:lit",
+    "global:scalar", "global:array", "global:const",
+    "static:lit", "static:expr",
     "from-elemN:decl", "from-elemN:assign", "from-elemN:return",
 ]
 # matrix path -> path of the Mech model (coq/C04/Model.v [path])
@@ -34,7 +39,25 @@ MECH_PATH = {
     "incdec-elem": "incdec-elem1", "arg": "arg", "return": "return", "elem1": "elem1", "elem1-compound": "elem1-compound",
     "elemN": "elemN", "literal1": "lit1", "literalN": "litN", "global:scalar": "global-scalar", "global:array": "global-arr",
     "static": "static", "from-elemN:decl": "decl", "from-elemN:assign": "assign-from-elemN", "from-elemN:return": "return-from-elemN",
+    # the hint is the type core/type_inference.cpp infers for the selected branch of `x = c ? a : b;`
+    "assign:tern-lit": "assign-hint:int", "assign:tern-else": "assign-hint:int", "assign:tern-var": "assign-hint:long",
+    "assign:tern-expr": "assign-hint:long", "assign:tern-call": "assign-hint:long", "assign:tern-nested": "assign-hint:int",
+    "assign:tern-tinyvar": "assign-hint:tiny", "assign:tern-bool": "assign-hint:bool",
+    "assign:call": "assign-call", "assign:static": "static-assign", "compound:static": "static-assign",
+    "incdec-var:static": "static-assign", "decl:call": "decl-call", "elem1:global": "elem1-global", "global:const": "const-global",
 }
+# the same program with the declared type written through a typedef alias (signed types only: `typedef unsigned tiny U8;` and
+# `unsigned T8 x;` are parse errors): declaration.cpp has its own branch for typedef'd declarations
+TYPEDEF_ALIAS = {"tiny": "T8", "short": "S16", "int": "I32", "long": "L64", "char": "C8"}
+TD_MECH_PATH = {"decl:tern-lit": "decl-typedef-ternary", "decl:tern-else": "decl-typedef-ternary", "decl:tern-var": "decl-typedef-ternary",
+                "decl:lit": "decl-typedef", "decl:var": "decl-typedef", "decl:expr": "decl-typedef", "decl:call": "decl-typedef",
+                "decl:elem1": "decl-typedef", "decl:const": "decl-typedef", "decl:block": "decl-typedef", "for-init:lit": "decl-typedef",
+                "from-elemN:decl": "decl-typedef",
+                # a typedef'd array declaration with a literal goes through handle_array_literal_initialization ->
+                # CommonOperations::assign_array_literal_to_variable (clamp only), not through the checked ArrayManager loops
+                "literal1:lit": "arrlit-assign1", "literal1:var": "arrlit-assign1", "literalN:lit": "arrlit-assignN"}
+TYPE_TEXT = {"tiny": "tiny", "short": "short", "int": "int", "long": "long", "char": "char", "utiny": "unsigned tiny",
+             "ushort": "unsigned short", "uint": "unsigned int", "ulong": "unsigned long"}
 
 KINDS = ["min-1", "min", "min+1", "-1", "0", "1", "max-1", "max", "max+1", "rand-in", "rand-above", "rand-below"]
 
@@ -120,6 +143,9 @@ def incdec_start(t, v, rng):
     return rng.choice(opts)
 
 
+IDENT = "(F 2 long ((7 long)) ((ret (v 7))))"          # long f2(long v7) { return v7; }
+
+
 def build(path, t, v, rng):
     """-> (sexpr, mech_query, extra) for one program storing `v` into a `t` cell along `path`:
     the program prints the target cell first and then len(extra) neighbour cells whose values must be
@@ -135,6 +161,9 @@ def build(path, t, v, rng):
     extra = []
     mpath = MECH_PATH.get(path) or MECH_PATH[p]
     query = "store %s %s %d" % (mpath, t, v)
+    lo, hi = RANGES[t]
+    COND1 = "(decl 0 0 long 4 1)"      # long v4 = 1;  the condition of the ?: cells (0 for the else variants)
+    COND0 = "(decl 0 0 long 4 0)"
     if p in ("decl", "for-init"):
         if p == "for-init":
             M = ["(for ((decl 0 0 %s 1 %d)) 1 ((asg (v 1) (bin + (v 1) 1))) ((print 1 (bin + (v 1) 0)) (break)))" % (t, v)]
@@ -143,32 +172,140 @@ def build(path, t, v, rng):
                 M = ["(decl 0 0 %s 1 %d)" % (t, v)]
             elif how == "var":
                 M = ["(decl 0 0 %s 2 %d)" % (W, v), "(decl 0 0 %s 1 (v 2))" % t]
-            else:
+            elif how == "expr":
                 a, b = split_sum(v, rng)
                 M = ["(decl 0 0 %s 2 %d)" % (W, a), "(decl 0 0 %s 1 (bin + (v 2) %d))" % (t, b)]
+            elif how == "tern-lit":
+                M = [COND1, "(decl 0 0 %s 1 (cond (v 4) %d %d))" % (t, v, rng.choice([0, 1]))]
+            elif how == "tern-else":
+                M = [COND0, "(decl 0 0 %s 1 (cond (v 4) %d %d))" % (t, rng.choice([0, 1]), v)]
+            elif how == "tern-var":
+                M = ["(decl 0 0 %s 2 %d)" % (W, v), COND1, "(decl 0 0 %s 1 (cond (v 4) (v 2) 0))" % t]
+            elif how == "call":
+                F = [IDENT]
+                M = ["(decl 0 0 %s 1 (call 2 %d))" % (t, v)]
+            elif how == "elem1":
+                M = ["(arr 0 long 5 (3) (0 %d 0))" % v, "(decl 0 0 %s 1 (idx 5 1))" % t]
+            elif how == "const":
+                M = ["(decl 1 0 %s 1 %d)" % (t, v)]
+            elif how == "block":
+                M = [COND1, "(if (v 4) ((decl 0 0 %s 1 %d) %s) ())" % (t, v, _readback(1))]
+                return "(P () () (%s))" % " ".join(M), query, extra
+            else:
+                raise ValueError(path)
             M.append(_readback(1))
     elif p == "assign":
-        M = ["(decl 0 0 %s 1 %d)" % (t, rng.choice([0, 1]))]
+        start = rng.choice([0, 1])
+        D = "(decl 0 0 %s 1 %d)" % (t, start)
         if how == "lit":
-            M.append("(asg (v 1) %d)" % v)
+            M = [D, "(asg (v 1) %d)" % v]
         elif how == "var":
-            M = ["(decl 0 0 %s 2 %d)" % (W, v)] + M + ["(asg (v 1) (v 2))"]
-        else:
+            M = ["(decl 0 0 %s 2 %d)" % (W, v), D, "(asg (v 1) (v 2))"]
+        elif how == "expr":
             a, b = split_sum(v, rng)
-            M = ["(decl 0 0 %s 2 %d)" % (W, a)] + M + ["(asg (v 1) (bin + (v 2) %d))" % b]
+            M = ["(decl 0 0 %s 2 %d)" % (W, a), D, "(asg (v 1) (bin + (v 2) %d))" % b]
+        elif how == "tern-lit":
+            M = [COND1, D, "(asg (v 1) (cond (v 4) %d %d))" % (v, start)]
+        elif how == "tern-else":
+            M = [COND0, D, "(asg (v 1) (cond (v 4) %d %d))" % (start, v)]
+        elif how == "tern-var":
+            M = ["(decl 0 0 %s 2 %d)" % (W, v), COND1, D, "(asg (v 1) (cond (v 4) (v 2) 0))"]
+        elif how == "tern-expr":
+            a, b = split_sum(v, rng)
+            M = ["(decl 0 0 %s 2 %d)" % (W, a), COND1, D, "(asg (v 1) (cond (v 4) (bin + (v 2) %d) (v 1)))" % b]
+        elif how == "tern-call":
+            F = [IDENT]
+            M = [COND1, D, "(asg (v 1) (cond (v 4) (call 2 %d) 0))" % v]
+        elif how == "tern-nested":
+            M = [COND1, D, "(asg (v 1) (cond (v 4) (cond (v 4) %d 1) 0))" % v]
+        elif how == "tern-tinyvar":
+            # the selected branch is NARROWER than the target (hint tiny)
+            if not (-128 <= v <= 127):
+                return None
+            M = ["(decl 0 0 tiny 2 %d)" % v, COND1, D, "(asg (v 1) (cond (v 4) (v 2) 0))"]
+        elif how == "tern-bool":
+            # the selected branch is inferred bool (a comparison, or - / ~ applied to one): the value is normalised to 0 / 1 before
+            # the store (finding C04-ternary-assign-bool-branch); only -2, -1, 0 and 1 can be written that way
+            e = {1: "(bin == (v 4) 1)", 0: "(bin != (v 4) 1)", -1: "(un - (bin == (v 4) 1))", -2: "(un ~ (bin == (v 4) 1))"}.get(v)
+            if e is None:
+                return None
+            M = [COND1, "(decl 0 0 %s 1 %d)" % (t, 1 - start), "(asg (v 1) (cond (v 4) %s %d))" % (e, start)]
+        elif how == "call":
+            F = [IDENT]
+            M = [D, "(asg (v 1) (call 2 %d))" % v]
+        elif how == "elem1":
+            M = ["(arr 0 long 5 (3) (0 %d 0))" % v, D, "(asg (v 1) (idx 5 1))"]
+        elif how == "uninit":
+            M = ["(decl 0 0 %s 1)" % t, "(asg (v 1) %d)" % v]
+        elif how == "global":
+            # a global assigned from inside a function
+            G = ["(G 0 %s 1 () (%d))" % (t, start)]
+            F = ["(F 1 long ((7 long)) ((asg (v 1) (v 7)) (ret 0)))"]
+            M = ["(expr (call 1 %d))" % v]
+        elif how == "param":
+            F = ["(F 1 long ((1 %s) (7 long)) ((asg (v 1) (v 7)) (ret (bin + (v 1) 0))))" % t]
+            M = ["(print 1 (call 1 %d %d))" % (start, v)]
+            return "(P () (%s) (%s))" % (" ".join(F), " ".join(M)), query, extra
+        elif how == "outer":
+            M = [D, COND1, "(while (v 4) ((if (v 4) ((asg (v 1) %d)) ()) (asg (v 4) 0)))" % v]
+        elif how == "static":
+            F = ["(F 1 long ((7 long)) ((decl 0 1 %s 1 %d) (asg (v 1) (v 7)) (ret (bin + (v 1) 0))))" % (t, start)]
+            M = ["(print 1 (call 1 %d))" % v]
+            return "(P () (%s) (%s))" % (" ".join(F), " ".join(M)), query, extra
+        else:
+            raise ValueError(path)
         M.append(_readback(1))
     elif p == "compound":
-        r = compound_operands(how, t, v, rng)
+        if how in ("add", "sub", "mul", "global", "static"):
+            r = compound_operands("add" if how in ("global", "static") else how, t, v, rng)
+        elif how == "or":
+            r = (0, "|", v)
+        elif how == "shl":
+            r = (v // 2, "<<", 1) if (v % 2 == 0 and 0 <= v // 2 <= hi) else None
+        elif how == "div":
+            if lo < 0 and v == hi + 1 and lo == -(hi + 1) and in64(v):
+                r = (lo, "/", -1)            # the one out-of-range quotient: min / -1
+            elif lo <= v <= hi:
+                r = (v, "/", 1)
+            else:
+                r = None
+        else:
+            raise ValueError(path)
         if r is None:
             return None
         start, op, operand = r
-        M = ["(decl 0 0 %s 1 %d)" % (t, start), "(casg %s (v 1) %d)" % (op, operand), _readback(1)]
+        if how == "global":
+            G = ["(G 0 %s 1 () (%d))" % (t, start)]
+            M = ["(casg %s (v 1) %d)" % (op, operand), _readback(1)]
+        elif how == "static":
+            F = ["(F 1 long ((7 long)) ((decl 0 1 %s 1 %d) (casg %s (v 1) (v 7)) (ret (bin + (v 1) 0))))" % (t, start, op)]
+            M = ["(print 1 (call 1 %d))" % operand]
+        else:
+            M = ["(decl 0 0 %s 1 %d)" % (t, start), "(casg %s (v 1) %d)" % (op, operand), _readback(1)]
     elif p == "incdec-var":
         r = incdec_start(t, v, rng)
         if r is None:
             return None
         start, inc = r
-        M = ["(decl 0 0 %s 1 %d)" % (t, start), "(incdec %d %d (v 1))" % (1 if how == "pre" else 0, inc), _readback(1)]
+        pre = rng.randint(0, 1)
+        if how in ("pre", "post"):
+            M = ["(decl 0 0 %s 1 %d)" % (t, start), "(incdec %d %d (v 1))" % (1 if how == "pre" else 0, inc), _readback(1)]
+        elif how == "for-update":
+            # the update clause of a for statement: runs once after the body
+            M = ["(decl 0 0 %s 1 %d)" % (t, start),
+                 "(for ((decl 0 0 long 4 0)) (bin < (v 4) 1) ((incdec %d %d (v 1))) ((asg (v 4) (bin + (v 4) 1))))" % (pre, inc), _readback(1)]
+        elif how == "global":
+            G = ["(G 0 %s 1 () (%d))" % (t, start)]
+            F = ["(F 1 long () ((incdec %d %d (v 1)) (ret 0)))" % (pre, inc)]
+            M = ["(expr (call 1))", _readback(1)]
+        elif how == "param":
+            F = ["(F 1 long ((1 %s)) ((incdec %d %d (v 1)) (ret (bin + (v 1) 0))))" % (t, pre, inc)]
+            M = ["(print 1 (call 1 %d))" % start]
+        elif how == "static":
+            F = ["(F 1 long () ((decl 0 1 %s 1 %d) (incdec %d %d (v 1)) (ret (bin + (v 1) 0))))" % (t, start, pre, inc)]
+            M = ["(print 1 (call 1))"]
+        else:
+            raise ValueError(path)
     elif p == "incdec-elem":
         r = incdec_start(t, v, rng)
         if r is None:
@@ -182,28 +319,70 @@ def build(path, t, v, rng):
         if how == "default":
             F = ["(F 1 long ((1 long) (2 %s %d)) ((ret (bin + (v 2) (v 1)))))" % (t, v)]
             M = ["(print 1 (call 1 0))"]
+        elif how == "second":
+            F = ["(F 1 long ((7 long) (1 %s)) ((ret (bin + (v 1) (v 7)))))" % t]
+            M = ["(print 1 (call 1 0 %d))" % v]
         else:
             F = ["(F 1 long ((1 %s)) ((ret (bin + (v 1) 0))))" % t]
             if how == "lit":
                 M = ["(print 1 (call 1 %d))" % v]
-            else:
+            elif how == "var":
                 M = ["(decl 0 0 %s 2 %d)" % (W, v), "(print 1 (call 1 (v 2)))"]
+            elif how == "expr":
+                a, b = split_sum(v, rng)
+                M = ["(decl 0 0 %s 2 %d)" % (W, a), "(print 1 (call 1 (bin + (v 2) %d)))" % b]
+            elif how == "call":
+                F.append(IDENT)
+                M = ["(print 1 (call 1 (call 2 %d)))" % v]
+            elif how == "tern":
+                M = [COND1, "(print 1 (call 1 (cond (v 4) %d 0)))" % v]
+            else:
+                raise ValueError(path)
     elif p == "return":
         if how == "var":
             F = ["(F 1 %s ((1 long)) ((ret (v 1))))" % t]
             M = ["(decl 0 0 long 3 (call 1 %d))" % v, _readback(3)]
-        else:
+        elif how == "expr":
             a, b = split_sum(v, rng)
             F = ["(F 1 %s ((1 long)) ((ret (bin + (v 1) %d))))" % (t, b)]
             M = ["(decl 0 0 long 3 (call 1 %d))" % a, _readback(3)]
+        elif how == "lit":
+            F = ["(F 1 %s () ((ret %d)))" % (t, v)]
+            M = ["(decl 0 0 long 3 (call 1))", _readback(3)]
+        elif how == "tern":
+            F = ["(F 1 %s ((7 long)) ((ret (cond (v 7) %d 0))))" % (t, v)]
+            M = ["(decl 0 0 long 3 (call 1 1))", _readback(3)]
+        elif how == "call":
+            F = [IDENT, "(F 1 %s ((1 long)) ((ret (call 2 (v 1)))))" % t]
+            M = ["(decl 0 0 long 3 (call 1 %d))" % v, _readback(3)]
+        elif how == "nested":
+            # return from inside a loop and a conditional
+            F = ["(F 1 %s ((1 long) (7 long)) ((while (v 7) ((if (v 7) ((ret (v 1))) ()))) (ret 0)))" % t]
+            M = ["(decl 0 0 long 3 (call 1 %d 1))" % v, _readback(3)]
+        elif how == "direct":
+            # the result is not stored, it is yielded to println
+            F = ["(F 1 %s ((1 long)) ((ret (v 1))))" % t]
+            M = ["(print 1 (bin + (call 1 %d) 0))" % v]
+        else:
+            raise ValueError(path)
     elif p == "elem1":
         n = rng.randint(2, 4)
         k = rng.randrange(n)
-        M = ["(arr 0 %s 1 (%d) ())" % (t, n)]
-        if how == "lit":
-            M.append("(asg (idx 1 %d) %d)" % (k, v))
+        A = "(arr 0 %s 1 (%d) ())" % (t, n)
+        if how == "global":
+            G = ["(G 0 %s 1 (%d) ())" % (t, n)]
+            M = ["(asg (idx 1 %d) %d)" % (k, v)]
+        elif how == "lit":
+            M = [A, "(asg (idx 1 %d) %d)" % (k, v)]
+        elif how == "var":
+            M = ["(decl 0 0 %s 2 %d)" % (W, v), A, "(asg (idx 1 %d) (v 2))" % k]
+        elif how == "tern":
+            M = [COND1, A, "(asg (idx 1 %d) (cond (v 4) %d 0))" % (k, v)]
+        elif how == "call":
+            F = [IDENT]
+            M = [A, "(asg (idx 1 %d) (call 2 %d))" % (k, v)]
         else:
-            M = ["(decl 0 0 %s 2 %d)" % (W, v)] + M + ["(asg (idx 1 %d) (v 2))" % k]
+            raise ValueError(path)
         M += [_readback_elem(1, [k])] + [_readback_elem(1, [j]) for j in range(n) if j != k]
         extra = [0] * (n - 1)
     elif p == "elem1-compound":
@@ -217,13 +396,21 @@ def build(path, t, v, rng):
         extra = [0, 0]
         query = "update %s %s %d %d" % (mpath, t, start, operand)
     elif p == "elemN":
-        dims = [2, 3] if how.endswith("2") else [2, 2, 2]
+        dims = [2, 2, 2] if how == "lit3" else [2, 3]
         idx = [rng.randrange(d) for d in dims]
-        M = ["(arr 0 %s 1 (%s) ())" % (t, " ".join(map(str, dims)))]
+        ix = " ".join(map(str, idx))
+        A = "(arr 0 %s 1 (%s) ())" % (t, " ".join(map(str, dims)))
         if how.startswith("lit"):
-            M.append("(asg (idx 1 %s) %d)" % (" ".join(map(str, idx)), v))
+            M = [A, "(asg (idx 1 %s) %d)" % (ix, v)]
+        elif how == "var2":
+            M = ["(decl 0 0 %s 2 %d)" % (W, v), A, "(asg (idx 1 %s) (v 2))" % ix]
+        elif how == "tern":
+            M = [COND1, A, "(asg (idx 1 %s) (cond (v 4) %d 0))" % (ix, v)]
+        elif how == "call":
+            F = [IDENT]
+            M = [A, "(asg (idx 1 %s) (call 2 %d))" % (ix, v)]
         else:
-            M = ["(decl 0 0 %s 2 %d)" % (W, v)] + M + ["(asg (idx 1 %s) (v 2))" % " ".join(map(str, idx))]
+            raise ValueError(path)
         other = [(idx[0] + 1) % dims[0]] + idx[1:]
         M += [_readback_elem(1, idx), _readback_elem(1, other)]
         extra = [0]
@@ -247,8 +434,8 @@ def build(path, t, v, rng):
         M = ["(arr 0 %s 1 (2 2) (%s))" % (t, " ".join(elts)), _readback_elem(1, [k // 2, k % 2]), _readback_elem(1, [o // 2, o % 2])]
         extra = [0]
     elif p == "global":
-        if how == "scalar":
-            G = ["(G 0 %s 1 () (%d))" % (t, v)]
+        if how in ("scalar", "const"):
+            G = ["(G %d %s 1 () (%d))" % (1 if how == "const" else 0, t, v)]
             M = [_readback(1)]
         else:
             elts = ["0"] * 3
@@ -258,8 +445,13 @@ def build(path, t, v, rng):
             M = [_readback_elem(1, [k])] + [_readback_elem(1, [j]) for j in range(3) if j != k]
             extra = [0, 0]
     elif p == "static":
-        F = ["(F 1 long () ((decl 0 1 %s 1 %d) (ret (bin + (v 1) 0))))" % (t, v)]
-        M = ["(print 1 (call 1))"]
+        if how == "lit":
+            F = ["(F 1 long () ((decl 0 1 %s 1 %d) (ret (bin + (v 1) 0))))" % (t, v)]
+            M = ["(print 1 (call 1))"]
+        else:
+            a, b = split_sum(v, rng)
+            F = ["(F 1 long ((7 long)) ((decl 0 1 %s 1 (bin + (v 7) %d)) (ret (bin + (v 1) 0))))" % (t, b)]
+            M = ["(print 1 (call 1 %d))" % a]
     elif p == "from-elemN":
         # the stored VALUE is a bare multi-dimensional element (long carrier array)
         M0 = ["(arr 0 long 2 (2 2) (0 0 0 %d))" % v]
@@ -277,7 +469,8 @@ def build(path, t, v, rng):
 
 
 def matrix(rng, types=None, paths=None):
-    """-> list of (sexpr, meta) with meta = {path, type, kind, value, query, extra}"""
+    """-> list of (sexpr, meta) with meta = {path, type, kind, value, query, extra[, typedef]}; a cell whose meta has
+    `typedef` is the same program with the target's type written through a typedef alias (see typedef_source)"""
     out = []
     for t in (types or TYPES):
         vals = values_for(t, rng)
@@ -291,6 +484,125 @@ def matrix(rng, types=None, paths=None):
                     continue
                 sx, query, extra = r
                 out.append((sx, {"path": path, "type": t, "kind": kind, "value": v, "query": query, "extra": extra}))
+                if t in TYPEDEF_ALIAS:
+                    q = query
+                    if path in TD_MECH_PATH:
+                        q = "store %s %s %d" % (TD_MECH_PATH[path], t, v)
+                    out.append((sx, {"path": "typedef/" + path, "type": t, "kind": kind, "value": v, "query": q, "extra": extra,
+                                     "typedef": TYPEDEF_ALIAS[t]}))
+    return out
+
+
+def typedef_source(src, t):
+    """the Cb text printed by the reference printer with every occurrence of the type name `t` replaced by a typedef alias"""
+    import re
+    alias = TYPEDEF_ALIAS[t]
+    return "typedef %s %s;\n" % (t, alias) + re.sub(r"\b%s\b" % t, alias, src)
+
+
+# ---------------------------------------------------------------------------------------------
+# cells outside CbCore (no Ref run: the expected transcript is the Spec conversion of the one store)
+# ---------------------------------------------------------------------------------------------
+RAW_PATHS = ["multi-decl:lit", "multi-decl:first", "multi-decl:var", "multi-decl:call", "multi-decl:tern",
+             "incdec-expr:post", "incdec-expr:pre", "neglit:decl", "neglit:assign", "elem1:param", "funcptr-arg:lit",
+             "arrlit-assign:1d", "arrlit-assign:2d", "arr-copy:assign", "arr-copy:param"]
+
+
+def raw_build(path, t, v, rng):
+    """-> (Cb source, mech_query, extra) or None"""
+    if not in64(v):
+        return None
+    T = TYPE_TEXT[t]
+    base = t[1:] if t.startswith("u") else t
+    lo, hi = RANGES[t]
+    p, how = path.split(":")
+    extra = []
+    rb = "  println( ( b + 0 ) ) ;\n"
+
+    def lit(x):
+        if x == I64[0]:
+            return "( ( 0 - %d ) - 1 )" % I64[1]       # 9223372036854775808 is not a token
+        return str(x) if x >= 0 else "( 0 - %d )" % -x
+    if p == "multi-decl":
+        # execute_multiple_var_decl -> execute_variable_declaration (variable_declaration.cpp): assign_variable with the declared
+        # type as hint; a ?: initialiser -> execute_ternary_variable_initialization (hint = inferred type of the branch)
+        q = "store decl-multi:%s %s %d" % (base, t, v)
+        if how == "lit":
+            body = "  %s a = 1 , b = %s ;\n" % (T, lit(v))
+        elif how == "first":
+            body = "  %s b = %s , a = 1 ;\n" % (T, lit(v))
+        elif how == "var":
+            body = "  long w = %s ;\n  %s a = 1 , b = w ;\n" % (lit(v), T)
+        elif how == "call":
+            body = "  %s a = 1 , b = id( %s ) ;\n" % (T, lit(v))
+        else:
+            q = "store decl-multi:int %s %d" % (t, v)
+            body = "  long c = 1 ;\n  %s a = 1 , b = c ? %s : 0 ;\n" % (T, lit(v))
+        src = "long id( long x ) {\n  return x ;\n}\nvoid main() {\n%s%s  println( ( a + 0 ) ) ;\n}\n" % (body, rb)
+        return src, q, [1]
+    if p == "incdec-expr":
+        r = incdec_start(t, v, rng)
+        if r is None:
+            return None
+        start, inc = r
+        op = "++" if inc else "--"
+        e = ("b %s" % op) if how == "post" else ("%s b" % op)
+        wv = start if how == "post" else "="     # the value of the expression itself: the old value / the value now stored
+        src = "void main() {\n  %s b = %s ;\n  long w = %s ;\n%s  println( w ) ;\n}\n" % (T, lit(start), e, rb)
+        return src, "store incdec-var %s %d" % (t, v), [wv]
+    if p == "neglit":
+        if v >= 0 or v == I64[0]:
+            return None
+        if how == "decl":
+            src = "void main() {\n  %s b = -%d ;\n%s}\n" % (T, -v, rb)
+            return src, "store decl %s %d" % (t, v), []
+        src = "void main() {\n  %s b = 1 ;\n  b = -%d ;\n%s}\n" % (T, -v, rb)
+        return src, "store assign %s %d" % (t, v), []
+    if p == "elem1" and how == "param":
+        src = ("void f( %s[3] a , long x ) {\n  a[ 1 ] = x ;\n  println( ( 0 + a[ 1 ] ) ) ;\n  println( ( 0 + a[ 0 ] ) ) ;\n}\n"
+               "void main() {\n  %s[3] a ;\n  f( a , %s ) ;\n}\n" % (T, T, lit(v)))
+        return src, "store elem1 %s %d" % (t, v), [0]
+    if p == "funcptr-arg":
+        # evaluator/functions/call_impl.cpp:354/523 (call through a function pointer): assign_function_parameter.
+        # A range error on this path ends in SIGSEGV after the message (finding C04-funcptr-arg-range-error-crash): in-range and
+        # clamped values only
+        if not (lo <= v <= hi or (lo == 0 and v < 0)):
+            return None
+        src = "long f( %s a ) {\n  return ( a + 0 ) ;\n}\nvoid main() {\n  long* fp = &f ;\n  println( fp( %s ) ) ;\n}\n" % (T, lit(v))
+        return src, "store arg %s %d" % (t, v), []
+    if p == "arrlit-assign":
+        if how == "1d":
+            src = "void main() {\n  %s[3] a ;\n  a = [ 0 , %s , 0 ] ;\n  println( ( 0 + a[ 1 ] ) ) ;\n  println( ( 0 + a[ 2 ] ) ) ;\n}\n" % (T, lit(v))
+            return src, "store arrlit-assign1 %s %d" % (t, v), [0]
+        src = ("void main() {\n  %s[2][2] a ;\n  a = [ [ 0 , %s ] , [ 0 , 0 ] ] ;\n  println( ( 0 + a[ 0 ][ 1 ] ) ) ;\n"
+               "  println( ( 0 + a[ 1 ][ 1 ] ) ) ;\n}\n" % (T, lit(v)))
+        return src, "store arrlit-assignN %s %d" % (t, v), [0]
+    if p == "arr-copy":
+        if how == "assign":
+            src = ("void main() {\n  long[3] w = [ 0 , %s , 0 ] ;\n  %s[3] a ;\n  a = w ;\n  println( ( 0 + a[ 1 ] ) ) ;\n"
+                   "  println( ( 0 + a[ 2 ] ) ) ;\n}\n" % (lit(v), T))
+        else:
+            src = ("long f( %s[3] a ) {\n  println( ( 0 + a[ 1 ] ) ) ;\n  return ( 0 + a[ 2 ] ) ;\n}\n"
+                   "void main() {\n  long[3] w = [ 0 , %s , 0 ] ;\n  println( f( w ) ) ;\n}\n" % (T, lit(v)))
+        return src, "store arr-copy %s %d" % (t, v), [0]
+    raise ValueError(path)
+
+
+def raw_matrix(rng, types=None, paths=None):
+    """-> list of (source, meta) - cells that CbCore cannot express; meta as in matrix() plus raw=True"""
+    out = []
+    for t in (types or TYPES):
+        vals = values_for(t, rng)
+        for path in (paths or RAW_PATHS):
+            for kind in KINDS:
+                v = vals.get(kind)
+                if v is None:
+                    continue
+                r = raw_build(path, t, v, rng)
+                if r is None:
+                    continue
+                src, query, extra = r
+                out.append((src, {"path": "raw/" + path, "type": t, "kind": kind, "value": v, "query": query, "extra": extra, "raw": True}))
     return out
 
 
@@ -302,8 +614,8 @@ NARROW = ["tiny", "short", "int", "char", "utiny", "ushort", "uint", "ulong", "l
 
 def mixed_program(rng):
     """A straight-line program of 4-10 stores over 3-5 typed cells; every store is on a path on
-    which Mech refines Spec (declaration, assignment, compound assignment, ++/--, argument, signed 1-D and
-    multi-dimensional elements, global scalar); values are aimed at the limits of the target's type."""
+    which Mech refines Spec (declaration, assignment - also from a ?: and from a call -, compound assignment, ++/--,
+    argument, signed 1-D and multi-dimensional elements, global scalar); values are aimed at the limits of the target's type."""
     nvars = rng.randint(3, 5)
     G, F, M = [], [], []
     cells = []          # (id, type)
@@ -352,11 +664,30 @@ def mixed_program(rng):
         M.append("(decl 0 0 %s %d %s)" % (t, x, lit(val(t))))
         cells.append((x, t))
         M.append(_readback(x))
+    F.append("(F 2 long ((%d long)) ((ret (v %d))))" % (vid[0] + 1, vid[0] + 1))      # identity, for `x = f(e);` / `x = c ? f(e) : y;`
+    vid[0] += 1
     for _ in range(rng.randint(4, 10)):
         x, t = rng.choice(cells)
         k = rng.random()
-        if k < 0.3:
+        if k < 0.12:
             M.append("(asg (v %d) %s)" % (x, lit(val(t))))
+        elif k < 0.24:
+            # x = c ? a : b;  (execute_ternary_assignment: the branch's inferred type is only a hint, the range of x decides)
+            def branch():
+                j = rng.random()
+                if j < 0.45:
+                    return lit(val(t))
+                if j < 0.65:
+                    return "(v %d)" % rng.choice(cells)[0]
+                if j < 0.8:
+                    return "(bin + (v %d) %s)" % (carrier, lit(val(t)))
+                if j < 0.9:
+                    return "(call 2 %s)" % lit(val(t))
+                return "(bin %s (v %d) %d)" % (rng.choice(["<", "==", ">="]), rng.choice(cells)[0], rng.choice([0, 1, 100]))
+            c = rng.choice(["(v %d)" % rng.choice(cells)[0], "(bin < (v %d) %d)" % (rng.choice(cells)[0], rng.choice([0, 1, 50])), "1", "0"])
+            M.append("(asg (v %d) (cond %s %s %s))" % (x, c, branch(), branch()))
+        elif k < 0.30:
+            M.append("(asg (v %d) (call 2 %s))" % (x, lit(val(t))))
         elif k < 0.45:
             # from another cell: mostly one whose type is not wider than the target's
             lo, hi = RANGES[t]
@@ -386,3 +717,110 @@ def mixed_program(rng):
             M.append("(asg (v %d) (bin + (v %d) %d))" % (x, x, rng.choice([1, -1, 127, -128, 32767])))
         M.append(_readback(x))
     return "(P (%s) (%s) (%s))" % (" ".join(G), " ".join(F), " ".join(M))
+
+
+# ---------------------------------------------------------------------------------------------
+# finding C04-ternary-assign-bool-branch (= C01-ternary-assign-bool-branch), avoided as narrowly as the defect is
+# ---------------------------------------------------------------------------------------------
+CMP_OPS = ("<", "<=", ">", ">=", "==", "!=")
+
+
+def _head(e):
+    return e[0] if isinstance(e, list) and e else None
+
+
+def _low_rank(e):
+    """may the type core/type_inference.cpp infers for `e` have numeric rank <= 1 (bool / char / tiny) or be unknown?
+    (over-approximation: variables and elements count as low)"""
+    h = _head(e)
+    if h is None:
+        return False                                    # a literal is int
+    if h in ("v", "idx"):
+        return True
+    if h == "call":
+        return False                                    # generated functions return long
+    if h == "un":
+        return True if e[1] == "!" else _low_rank(e[2])
+    if h == "bin":
+        return True if e[1] in CMP_OPS else (_low_rank(e[2]) and _low_rank(e[3]))
+    if h in ("and", "or"):
+        return _low_rank(e[1]) and _low_rank(e[2])
+    if h == "cond":
+        return _low_rank(e[2]) or _low_rank(e[3])
+    return True
+
+
+def _maybe_bool(e):
+    """may `e` be inferred bool? comparisons and `!`; - and ~ keep the operand's type; an arithmetic / logical operator yields the
+    common type of its operands, which is bool when both are bool or one is bool and the other has rank <= 1 / is unknown"""
+    h = _head(e)
+    if h is None or h in ("v", "idx", "call"):
+        return False
+    if h == "un":
+        return True if e[1] == "!" else _maybe_bool(e[2])
+    if h in ("bin", "and", "or"):
+        if h == "bin" and e[1] in CMP_OPS:
+            return True
+        a, b = (e[2], e[3]) if h == "bin" else (e[1], e[2])
+        return (_maybe_bool(a) and (_maybe_bool(b) or _low_rank(b))) or (_maybe_bool(b) and (_maybe_bool(a) or _low_rank(a)))
+    if h == "cond":
+        return _maybe_bool(e[2]) or _maybe_bool(e[3])
+    return True
+
+
+def _zero_one(e):
+    h = _head(e)
+    if h is None:
+        return e in ("0", "1")
+    if h == "un":
+        return e[1] == "!"
+    if h == "bin":
+        return e[1] in CMP_OPS
+    if h in ("and", "or"):
+        return True
+    if h == "cond":
+        return _zero_one(e[2]) and _zero_one(e[3])
+    return False
+
+
+def bool_branch_risk(e):
+    """a branch of a top-level ?: whose value the bool normalisation of assign_variable can change"""
+    return _maybe_bool(e) and not _zero_one(e)
+
+
+def narrow_top_ternary(sexpr):
+    """`x = c ? a : b;` is left as it is unless a branch may be inferred bool with a value other than 0 / 1 (then: `x = (c ? a : b) + 0;`).
+    -> (sexpr, number of ternary assignments kept, number wrapped)"""
+    import langrun
+    tree = langrun.parse(sexpr)
+    cnt = [0, 0]
+
+    def walk(st):
+        if not isinstance(st, list) or not st:
+            return
+        h = st[0]
+        if h == "asg" and _head(st[1]) == "v" and _head(st[2]) == "cond":
+            if bool_branch_risk(st[2][2]) or bool_branch_risk(st[2][3]):
+                st[2] = ["bin", "+", st[2], "0"]
+                cnt[1] += 1
+            else:
+                cnt[0] += 1
+            return
+        if h in ("if",):
+            for x in st[2] + st[3]:
+                walk(x)
+        elif h == "while":
+            for x in st[2]:
+                walk(x)
+        elif h == "for":
+            for x in st[1] + st[3] + st[4]:
+                walk(x)
+        elif h == "block":
+            for x in st[1:]:
+                walk(x)
+    for f in tree[2]:
+        for x in f[4]:
+            walk(x)
+    for x in tree[3]:
+        walk(x)
+    return langrun.show(tree), cnt[0], cnt[1]
